@@ -87,6 +87,7 @@ type errT struct {
 	a, b  []byte
 	line  int
 	inner *errT
+	inner2 *errT // kind "join": errors.Join(inner, inner2)
 }
 
 type valT struct {
@@ -159,6 +160,8 @@ func (e *errT) sx() string {
 		return sx("wrap", e.a, e.b, e.inner.sx())
 	case "source":
 		return sx("source", e.a, e.line, e.b, e.inner.sx())
+	case "join":
+		return sx("join", e.inner.sx(), e.inner2.sx())
 	default:
 		return sx(e.kind, e.a, e.inner.sx())
 	}
@@ -277,6 +280,8 @@ func errFrom(n *node) *errT {
 		return &errT{kind: "wrap", a: unhx(l[1].atom), b: unhx(l[2].atom), inner: errFrom(l[3])}
 	case "source":
 		return &errT{kind: "source", a: unhx(l[1].atom), line: atoi(l[2].atom), b: unhx(l[3].atom), inner: errFrom(l[4])}
+	case "join":
+		return &errT{kind: "join", inner: errFrom(l[1]), inner2: errFrom(l[2])}
 	default:
 		return &errT{kind: k, a: unhx(l[1].atom), inner: errFrom(l[2])}
 	}
